@@ -321,3 +321,62 @@ Proof.
     split; [unfold in_s; vm_compute; split; discriminate || reflexivity|].
     cbv zeta. repeat split; vm_compute; reflexivity.
 Qed.
+
+(* ---- source tie (C07/Source.v): the varint coders of integer / float bodies and error codes.
+   Generated/PacketVarint.v is regenerated by tools/gofunc on every run from encoding/binary/varint.go
+   (PutUvarint, PutVarint, Uvarint, Varint, GOROOT source) and /repo/packet/packet_encode.go
+   (encodeInt64, encodeUint64).  On their domain - 64-bit values, bytes in [0,256), a buffer of at
+   least MaxVarintLen64 = 10 bytes, enough fuel - the translated functions equal the hand-written
+   model Lib/Varint.v that body_to_bytes and the decoder of C07/Model.v use. *)
+From FV Require Lib.GoSem.
+From FV Require Import Generated.PacketVarint C07.Source.
+
+Theorem c07_src_PutUvarint : forall fuel buf x,
+  0 <= x < 2 ^ 64 -> (10 <= length buf)%nat -> (10 <= fuel)%nat ->
+  go_binary_PutUvarint fuel buf x =
+  GoSem.Ok (Z.of_nat (length (put_uvarint x)), put_uvarint x ++ skipn (length (put_uvarint x)) buf).
+Proof. exact src_PutUvarint. Qed.
+Print Assumptions c07_src_PutUvarint.
+
+Theorem c07_src_PutVarint : forall fuel buf x,
+  in_s 64 x -> (10 <= length buf)%nat -> (10 <= fuel)%nat ->
+  go_binary_PutVarint fuel buf x =
+  GoSem.Ok (Z.of_nat (length (put_varint x)), put_varint x ++ skipn (length (put_varint x)) buf).
+Proof. exact src_PutVarint. Qed.
+Print Assumptions c07_src_PutVarint.
+
+Theorem c07_src_Uvarint : forall fuel buf, Forall is_byte buf -> (length buf < fuel)%nat ->
+  go_binary_Uvarint fuel buf = GoSem.Ok (uvarint buf).
+Proof. exact src_Uvarint. Qed.
+Print Assumptions c07_src_Uvarint.
+
+Theorem c07_src_Varint : forall fuel buf, Forall is_byte buf -> (length buf < fuel)%nat ->
+  go_binary_Varint fuel buf = GoSem.Ok (varint buf).
+Proof. exact src_Varint. Qed.
+Print Assumptions c07_src_Varint.
+
+(* packet.encodeInt64 / encodeUint64 return exactly the model's wire form of an integer / float body *)
+Theorem c07_src_encodeInt64 : forall fuel x, in_s 64 x -> (10 <= fuel)%nat ->
+  go_encodeInt64 fuel x = GoSem.Ok (body_to_bytes (BInt x)).
+Proof. exact src_encodeInt64. Qed.
+Print Assumptions c07_src_encodeInt64.
+
+Theorem c07_src_encodeUint64 : forall fuel f, 0 <= f < 2 ^ 64 -> (10 <= fuel)%nat ->
+  go_encodeUint64 fuel f = GoSem.Ok (body_to_bytes (BFloat f)).
+Proof. exact src_encodeUint64. Qed.
+Print Assumptions c07_src_encodeUint64.
+
+(* round trips stated on the translated definitions alone: binary.Varint reads back what
+   packet.encodeInt64 wrote, for every int64 (error codes and integer bodies), and binary.Uvarint
+   what encodeUint64 wrote, for every uint64 (float bit patterns) *)
+Theorem c07_src_varint_roundtrip : forall fuel x, in_s 64 x -> (11 <= fuel)%nat ->
+  GoSem.bind (go_encodeInt64 fuel x) (go_binary_Varint fuel) =
+  GoSem.Ok (x, Z.of_nat (length (put_varint x))).
+Proof. exact src_varint_roundtrip. Qed.
+Print Assumptions c07_src_varint_roundtrip.
+
+Theorem c07_src_uvarint_roundtrip : forall fuel x, 0 <= x < 2 ^ 64 -> (11 <= fuel)%nat ->
+  GoSem.bind (go_encodeUint64 fuel x) (go_binary_Uvarint fuel) =
+  GoSem.Ok (x, Z.of_nat (length (put_uvarint x))).
+Proof. exact src_uvarint_roundtrip. Qed.
+Print Assumptions c07_src_uvarint_roundtrip.
